@@ -3,8 +3,10 @@ package hx
 import (
 	"fmt"
 	"math"
+	"strings"
 
 	"github.com/tobgu/qframe"
+	"github.com/tobgu/qframe/aggregation"
 )
 
 // Agg is a data-only aggregation: built-in name or a user function from the library.
@@ -93,7 +95,7 @@ func AggsFor(k Kind) []string {
 	case KBool:
 		return []string{"count", "majority", "first", "last", "xorchain"}
 	default:
-		return []string{"count", "concat", "first", "last"}
+		return []string{"count", "concat", "first", "last", "strjoin"}
 	}
 }
 
@@ -113,6 +115,8 @@ func (a Agg) Build(k Kind) qframe.Aggregation {
 		fn = map[Kind]interface{}{KInt: lastI, KFloat: lastF, KBool: lastB, KString: lastS, KEnum: lastS}[k]
 	case "concat":
 		fn = concatS
+	case "strjoin":
+		fn = aggregation.StrJoin("|") // the library's own example aggregation
 	case "xorchain":
 		fn = xorChainB
 	}
@@ -226,6 +230,15 @@ func (a Agg) Apply(c Col, rows []int, out *Col) {
 		switch a.Fn {
 		case "concat":
 			x = concatS(v)
+		case "strjoin":
+			// documented: joins the non-null strings with the separator
+			var parts []string
+			for _, p := range v {
+				if p != nil {
+					parts = append(parts, *p)
+				}
+			}
+			x = Sp(strings.Join(parts, "|"))
 		case "first":
 			x = firstS(v)
 		case "last":
